@@ -22,14 +22,14 @@ type Arg struct {
 	Q bool    `json:"q,omitempty"` // wrap in quotes although not required
 }
 
-func lit(s string) *Node            { return &Node{K: "lit", S: s} }
-func mt(i int) *Node                { return &Node{K: "m", I: i} }
-func key(s string) *Node            { return &Node{K: "key", S: s} }
+func lit(s string) *Node             { return &Node{K: "lit", S: s} }
+func mt(i int) *Node                 { return &Node{K: "m", I: i} }
+func key(s string) *Node             { return &Node{K: "key", S: s} }
 func call(fn string, a ...Arg) *Node { return &Node{K: "call", S: fn, A: a} }
-func arg(p ...*Node) Arg            { return Arg{P: p} }
-func qarg(p ...*Node) Arg           { return Arg{P: p, Q: true} }
-func la(s string) Arg               { return Arg{P: []*Node{lit(s)}} }
-func ia(i int) Arg                  { return la(strconv.Itoa(i)) }
+func arg(p ...*Node) Arg             { return Arg{P: p} }
+func qarg(p ...*Node) Arg            { return Arg{P: p, Q: true} }
+func la(s string) Arg                { return Arg{P: []*Node{lit(s)}} }
+func ia(i int) Arg                   { return la(strconv.Itoa(i)) }
 
 var errRender = errors.New("not renderable")
 
